@@ -91,6 +91,7 @@ struct Image {
   Bytes bytes;
   size_t infoLen, preLen;
   std::vector<PathFn> paths;
+  std::vector<uint32_t> flagPos;   // preamble bytes that hold flag / mode bits: every value 0..255 is tried in every tier
   bool capCorrupt = true;   // false: a preamble field of this family IS the capacity of a constructible object (see HugeAlloc rule)
 };
 static std::vector<Image> g_images;
@@ -149,6 +150,11 @@ static void add_image(const std::string& family, const std::string& kind, const 
   // capacity of an object the public constructor would also allocate up front, so that every value is a valid
   // configuration: Bloom (bit-array length), count-min (buckets x hashes), EBPPS (k slots reserved by the constructor).
   im.capCorrupt = !(family == "bloom" || family == "countmin" || family == "ebpps");
+  // position of the flags byte in each family's preamble (layout comments / serialize() of each family); hll: flags + mode byte
+  if (family == "theta" || family == "tuple" || family == "cpc" || family == "fi" || family == "tdigest") im.flagPos = {5};
+  else if (family == "aod") im.flagPos = {4};
+  else if (family == "hll") im.flagPos = {5, 7};
+  else im.flagPos = {3};   // kll, req, quantiles, countmin, bloom, varopt, varoptunion, ebpps, density
   g_images.push_back(std::move(im));
 }
 template<class V> static Bytes B(const V& v) { return Bytes(v.begin(), v.end()); }
@@ -221,6 +227,17 @@ static void build_theta(bool thorough) {
   if (thorough) {
     { auto u = mk(6, 400); add_theta("est-ordered-lgk6", B(u.compact(true).serialize()), 24); }
     { auto u = mk(6, 400); auto b = B(u.compact(true).serialize_compressed()); add_theta("v4-est-lgk6", b, 16 + b[4]); }
+  }
+  { // results of set operations (compact sketches built by the set-operation code, not by compact())
+    auto a = mk(5, 200), c = mk(6, 120);
+    auto un = theta_union::builder().set_lg_k(5).build(); un.update(a); un.update(c);
+    add_theta("union-result-est", B(un.get_result().serialize()), 24);
+    add_theta("union-result-unordered", B(un.get_result(false).serialize()), 24);
+    theta_intersection ix; ix.update(a); ix.update(c);
+    { auto r = ix.get_result(); auto b = B(r.serialize()); add_theta("intersection-result", b, (size_t)b[0] * 8); }
+    { auto r = theta_a_not_b().compute(mk(5, 9), mk(5, 4)); auto b = B(r.serialize()); add_theta("a-not-b-result-exact", b, (size_t)b[0] * 8); }
+    auto e = theta_union::builder().set_lg_k(5).build();
+    { auto b = B(e.get_result().serialize()); add_theta("union-result-empty", b, 8); }
   }
   // legacy images written from the documented layouts (theta_sketch.hpp / Java SetOperation docs): v1, v2
   auto src = mk(5, 200).compact(true);
@@ -386,6 +403,19 @@ static void build_hll(bool thorough) {
       add_hll(std::string(tn[t]) + "-" + k.name + "-compact", B(s.serialize_compact()));
       add_hll(std::string(tn[t]) + "-" + k.name + "-updatable", B(s.serialize_updatable()));
     }
+    {   // hll_union::get_result(type): list / set / HLL-mode results; HLL-mode results carry the out-of-order flag and no HIP
+      struct U { const char* name; int lgk, n1, n2; };
+      for (auto& k : std::vector<U>{{"union-list", 8, 2, 3}, {"union-set", 8, 8, 9}, {"union-hll", 8, 300, 350}, {"union-hll-downsampled", 7, 300, 350}}) {
+        hll_sketch a(8, types[t]), c(k.lgk, types[t]);
+        for (int i = 0; i < k.n1; i++) a.update((uint64_t)(i * 2654435761ULL + 17));
+        for (int i = 0; i < k.n2; i++) c.update((uint64_t)(i * 40503ULL + 99991));
+        hll_union u(8);
+        u.update(a); u.update(c);
+        auto r = u.get_result(types[t]);
+        add_hll(std::string(tn[t]) + "-" + k.name + "-compact", B(r.serialize_compact()));
+        add_hll(std::string(tn[t]) + "-" + k.name + "-updatable", B(r.serialize_updatable()));
+      }
+    }
     if (t == 0) {
       // HLL_4 with exceptions in the aux map (AUX_COUNT_INT @36 > 0): find items whose coupon value is >= 16 (read from
       // the single-coupon LIST image, bytes 8..11, value = coupon >> 26) and add them to a sketch whose curMin is 0
@@ -431,6 +461,23 @@ static void build_cpc(bool thorough) {
     cpc_sketch s(k.lgk);
     for (int i = 0; i < k.n; i++) s.update((uint64_t)(i * 2654435761ULL + 5));
     Bytes b = B(s.serialize());
+    add_image("cpc", k.name, b, (size_t)b[0] * 4, b.size(), {
+      path_bytes("bytes", [](uint8_t* p, size_t n) { return cpc_sketch::deserialize(p, n); }, use_cpc),
+      path_stream([](std::istream& is) { return cpc_sketch::deserialize(is); }, use_cpc),
+    });
+  }
+  // cpc_union::get_result(): merged sketches carry no HIP fields - other flag combinations and preamble sizes than update-built ones
+  struct U { const char* name; int lgk, n1, n2; };
+  std::vector<U> us = {{"union-tiny-lgk10", 10, 3, 4}, {"union-sparse-lgk6", 6, 3, 2}, {"union-hybrid-lgk6", 6, 12, 14}, {"union-pinned-lgk6", 6, 60, 70},
+                       {"union-sliding-lgk6", 6, 900, 1100}};
+  if (thorough) us.push_back({"union-sliding-lgk8", 8, 3000, 4000});
+  for (auto& k : us) {
+    cpc_sketch a(k.lgk), c(k.lgk);
+    for (int i = 0; i < k.n1; i++) a.update((uint64_t)(i * 2654435761ULL + 5));
+    for (int i = 0; i < k.n2; i++) c.update((uint64_t)(i * 40503ULL + 77777));
+    cpc_union u(k.lgk);
+    u.update(a); u.update(c);
+    Bytes b = B(u.get_result().serialize());
     add_image("cpc", k.name, b, (size_t)b[0] * 4, b.size(), {
       path_bytes("bytes", [](uint8_t* p, size_t n) { return cpc_sketch::deserialize(p, n); }, use_cpc),
       path_stream([](std::istream& is) { return cpc_sketch::deserialize(is); }, use_cpc),
@@ -488,6 +535,11 @@ template<class T> static void build_kll_t(const char* tname, bool thorough) {
     for (int i = 0; i < k.n; i++) s.update(qitem<T>(i));
     Bytes b = B(s.serialize());
     add_quant<S>("kll", std::string(tname) + "-" + k.name, b, (size_t)b[0] * 4);
+    if (k.n >= 5 && !g_long_strings) {   // lazy state: a query sorts level zero and the writer records it in the flags byte
+      (void)s.get_quantile(0.5);
+      Bytes b2 = B(s.serialize());
+      if (b2 != b) add_quant<S>("kll", std::string(tname) + "-" + k.name + "-l0sorted", b2, (size_t)b2[0] * 4);
+    }
   }
 }
 template<class T> static void build_req_t(const char* tname, bool thorough) {
@@ -617,12 +669,18 @@ static std::string use_bloom(bloom_filter& s) {
   return g.s;
 }
 static void build_bloom(bool thorough) {
-  struct K { const char* name; int bits, h, n; };
-  std::vector<K> kinds = {{"empty", 128, 3, 0}, {"small", 128, 3, 10}, {"two-words", 65, 2, 3}};
-  if (thorough) kinds.push_back({"kilobit", 1024, 5, 60});
+  // variant: what the writer stores in the bit-count field - 0 update() only (dirty marker), 1 get_bits_used() called after the
+  // last update (valid count), 2 filled through query_and_update() only (valid count), 3 union_with result, 4 invert result
+  struct K { const char* name; int bits, h, n, variant; };
+  std::vector<K> kinds = {{"empty", 128, 3, 0, 0}, {"small", 128, 3, 10, 0}, {"two-words", 65, 2, 3, 0}, {"small-counted", 128, 3, 10, 1},
+                          {"small-qau", 128, 3, 10, 2}, {"union-result", 128, 3, 10, 3}, {"inverted", 128, 3, 10, 4}};
+  if (thorough) { kinds.push_back({"kilobit", 1024, 5, 60, 0}); kinds.push_back({"kilobit-counted", 1024, 5, 60, 1}); }
   for (auto& k : kinds) {
     auto s = bloom_filter::builder::create_by_size(k.bits, k.h, 123);
-    for (int i = 0; i < k.n; i++) s.update((uint64_t)(i * 13 + 42));
+    for (int i = 0; i < k.n; i++) { if (k.variant == 2) (void)s.query_and_update((uint64_t)(i * 13 + 42)); else s.update((uint64_t)(i * 13 + 42)); }
+    if (k.variant == 1) (void)s.get_bits_used();
+    if (k.variant == 3) { auto o = bloom_filter::builder::create_by_size(k.bits, k.h, 123); for (int i = 0; i < 7; i++) o.update((uint64_t)(i * 29 + 1)); s.union_with(o); }
+    if (k.variant == 4) s.invert();
     Bytes b = B(s.serialize());
     std::vector<PathFn> paths = {
       path_bytes("bytes", [](uint8_t* p, size_t n) { return bloom_filter::deserialize(p, n); }, use_bloom),
@@ -688,6 +746,13 @@ template<class T> static void build_varopt_t(const char* tname, bool thorough) {
     U u(k.k);
     u.update(s);
     if (k.heavy) { S s2(k.k / 2); for (int i = 0; i < 50; i++) s2.update(qitem<T>(i + 100), 2.0 + (i % 7)); u.update(s2); }
+    if (k.n > 0) {   // the sketch a union hands out (built by the union's resolution code, marks dropped)
+      Bytes rb = B(u.get_result().serialize());
+      add_image("varopt", std::string(tname) + "-" + k.name + "-union-result", rb, (size_t)(rb[0] & 0x3f) * 8, rb.size(), {
+        path_bytes("bytes", [](uint8_t* p, size_t n) { return S::deserialize(p, n); }, use_varopt<S>),
+        path_stream([](std::istream& is) { return S::deserialize(is); }, use_varopt<S>),
+      });
+    }
     Bytes ub = B(u.serialize());
     add_image("varoptunion", std::string(tname) + "-" + k.name, ub, (size_t)(ub[0] & 0x3f) * 8, ub.size(), {
       path_bytes("bytes", [](uint8_t* p, size_t n) { return U::deserialize(p, n); }, use_vou<U>),
@@ -1011,6 +1076,7 @@ static std::vector<Attempt> make_attempts(const Image& im, int vals_mode) {
       if (vals_mode == 0) vals = {0, 1, 2, 3, 4, 8, 16, 32, 64, 0x7f, 0x80, 200, 254, 0xff, (uint8_t)(v - 1), (uint8_t)(v + 1),
                                   (uint8_t)(v - 2), (uint8_t)(v + 2), (uint8_t)(v - 3), (uint8_t)(v + 3), (uint8_t)(v - 4), (uint8_t)(v / 2), (uint8_t)(v * 2)};
       else for (int x = 0; x < 256; x++) vals.push_back(x);
+      if (std::find(im.flagPos.begin(), im.flagPos.end(), pos) != im.flagPos.end()) for (int x = 0; x < 256; x++) vals.push_back(x);
       std::sort(vals.begin(), vals.end());
       vals.erase(std::unique(vals.begin(), vals.end()), vals.end());
       for (int x : vals) if (x != v) at.push_back(Attempt{pi, M_CORRUPT, size, pos, (uint8_t)x});
